@@ -309,6 +309,28 @@ func (fr *Frame) callWith(cc *ssa.CallCommon, site ssa.Instruction, st *State, g
 	if fnVal.Clo != nil {
 		return fr.callClosure(fnVal.Clo, args, st, g, site, resType)
 	}
+	if len(fnVal.Alts) > 0 {
+		// one of several known functions, depending on the path taken: execute each under its guard and join
+		var guards, ngs []*Term
+		var sts []*State
+		var vals []Val
+		for i, a := range fnVal.Alts {
+			sk := st.clone()
+			gk := c.define(fmt.Sprintf("g.alt%d", i), tAnd(g, a.G))
+			v, ng := fr.callClosure(a.V.Clo, args, sk, gk, site, resType)
+			guards = append(guards, gk)
+			sts = append(sts, sk)
+			vals = append(vals, v)
+			if ng != nil {
+				ngs = append(ngs, ng)
+			} else {
+				ngs = append(ngs, gk)
+			}
+		}
+		merged := c.joinStates(guards, sts)
+		st.heap = merged.heap
+		return c.mergeAltVals(guards, vals, resType), c.define("g.altret", tOr(ngs...))
+	}
 	// call through a function value: field contracts
 	if ct := fr.funcValueContract(cc); ct != nil {
 		return fr.applyContract(ct, nil, ct.FuncName, args, cc.Signature(), nil, st, g, site, resType)
@@ -932,3 +954,33 @@ func sortedKeys(m map[string]int) []string {
 }
 
 var _ = strings.Join
+
+// mergeAltVals joins the results of the alternatives of a split call: ite over the alternatives' guards.
+func (c *Ctx) mergeAltVals(guards []*Term, vals []Val, resType types.Type) Val {
+	if len(vals) == 1 {
+		return vals[0]
+	}
+	if tup, ok := resType.(*types.Tuple); ok {
+		if tup.Len() == 0 {
+			return Val{}
+		}
+		var out []Val
+		for i := 0; i < tup.Len(); i++ {
+			var vs []Val
+			for _, v := range vals {
+				if i < len(v.Tuple) {
+					vs = append(vs, v.Tuple[i])
+				} else {
+					vs = append(vs, tv(c.fresh("altres", c.sortOf(tup.At(i).Type()))))
+				}
+			}
+			out = append(out, c.mergeAltVals(guards, vs, tup.At(i).Type()))
+		}
+		return Val{Tuple: out}
+	}
+	res := c.valTerm(vals[len(vals)-1], "altres")
+	for k := len(vals) - 2; k >= 0; k-- {
+		res = tIte(guards[k], c.valTerm(vals[k], "altres"), res)
+	}
+	return tv(c.define("altres", res))
+}
